@@ -251,13 +251,17 @@ func (c *Channel) Invoke(ctx context.Context, method string, req, resp interface
 	sts := internal.UnaryServerTransportStream{Name: method}
 
 	defer cancel()
+	// Build the handler's context now, while the caller still owns its outgoing
+	// metadata: the handler runs in another goroutine, possibly after this call
+	// has already returned (e.g. on cancellation) and the caller has changed it.
+	svrCtx := makeServerContext(ctx)
 	ch := make(chan frame, 1)
 	go func() {
 		defer func() {
 			sts.Finish()
 			close(ch)
 		}()
-		ctx := grpc.NewContextWithServerTransportStream(makeServerContext(ctx), &sts)
+		ctx := grpc.NewContextWithServerTransportStream(svrCtx, &sts)
 		v, err := md.Handler(handler, ctx, codec, c.unaryInterceptor)
 		if h := sts.GetHeaders(); len(h) > 0 {
 			_ = writeMessage(ctx, nil, ch, frame{headers: h})
